@@ -2,27 +2,34 @@
   Mrm/Proofs/LexerP.lean — C14 at character level (targets).
 -/
 import Mrm.Model.Lexer
+import Mrm.Proofs.SerEq
+import Mrm.Proofs.LexMain
+import Mrm.Proofs.SerTok
 
 namespace Mrm
 
 /-- the character-list serialiser is the serialiser -/
-theorem serialize_eq (t : Xml) : serialize t = String.ofList (serChars t) := by
-  sorry
+theorem serialize_eq (t : Xml) : serialize t = String.ofList (serChars t) :=
+  serialize_eq' t
 
 /-- lexing the serialisation of a well-formed tree yields its token stream -/
 theorem lex_serialize (t : Xml) (h : wfSer t = true) :
-    lexGo ((serChars t).length + 1) (serChars t) = some (tokens t) := by
-  sorry
+    lexGo ((serChars t).length + 1) (serChars t) = some (tokens t) :=
+  lex_serialize' t h
 
 /-- C14 at full strength on the model: every tree with valid names and carriage-return-free,
     non-empty character data reads back from its serialisation as exactly itself — text, tails,
     attributes (any string, CR/LF/TAB included) and markup-significant characters intact -/
 theorem parse_serialize (t : Xml) (h : wfSer t = true) : parseXml (serialize t) = some t := by
-  sorry
+  unfold parseXml parseXmlL
+  rw [toList_serialize, lex_serialize t h]
+  exact tokens_roundtrip' t
 
 /-- serialise ∘ read ∘ serialise = serialise -/
 theorem serialize_idempotent (t t' : Xml) (h : wfSer t = true) (hp : parseXml (serialize t) = some t') :
     serialize t' = serialize t := by
-  sorry
+  rw [parse_serialize t h] at hp
+  cases hp
+  rfl
 
 end Mrm
